@@ -117,6 +117,9 @@ class D:
         sn, cs = s.v.sin(), s.v.cos()
         return D(cs, [-(a * sn) for a in s.t])
 
+    def fmod(s, c):
+        return D(s.v.fmod(c), list(s.t))  # derivative 1 away from the jumps
+
     def tanh(s):
         r = s.v.tanh()
         return D(r, [a * (1 - r * r) for a in s.t])
